@@ -23,7 +23,7 @@ RULE = ("every DAG(n) n<=4 with every disjoint (L,S) (3^n assignments) and every
         "empty sets, a node dropped in place after a warm-up, and x == y / absent x or y (ValueError as the code documents). "
         "nested labels: two nodes labelled by the pair / frozenset of the labels of two other adjacent nodes (a fixed 8-node shape under 24 "
         "relabellings + 300 random graphs). dense stream: 250 random DAGs/ADMGs with 6-8 nodes and edge density 0.7-0.9. deep stream: "
-        "chains and bidirected collider chains of 150-300 nodes with latent forks, 120 frames of recursion head-room (inducing_path only; "
+        "chains and bidirected collider chains of 45-60 nodes with latent forks, 30 frames of recursion head-room (inducing_path only; "
         "its DFS depth is the length of the explored path, kept <= 4 by the shapes). identity-hashed label objects (family obj). "
         "argument integrity on every case: graph snapshot and the L, S objects (the same two objects for all calls) unchanged")
 EXHAUSTIVE = {"quick": "DAG(n) x all disjoint (L,S) x all ordered pairs, n<=4 (n<=3 under all 7 label families); ADMG(n) n<=3 likewise",
@@ -310,25 +310,26 @@ def dense_cases(tier, rng):
 
 
 def deep_cases(tier, rng):
-    """DEEP stream: long chains / collider chains (150-300 nodes) with side branches, run with 120 frames of head-room.
+    """DEEP stream: long chains / collider chains (45-60 nodes: the model's naive closure is O(n^4), 100 nodes already cost 30 s per case) with side
+    branches, run with 30 frames of head-room.
     inducing_path's DFS legitimately recurses once per node of the path it explores, so the shapes keep every explored path
     short (observed chain nodes block, latent side branches have length <= 3); everything else (ancestors, neighbours,
     sub-graph construction) must not recurse per node.  Only inducing_path is judged (dag_to_mag would need n^2 searches)."""
-    for n in (150, 220, 300):
+    for n in (45, 60):
         D = [(i, i + 1) for i in range(n - 1)]
         side, L = n, []
-        for i in range(5, n - 5, 37):                 # latent forks i <- l -> i+2 and latent 2-chains
+        for i in range(5, n - 5, 17):                 # latent forks i <- l -> i+2 and latent 2-chains
             D += [(side, i), (side, i + 2)]
             L.append(side)
             side += 1
         g = gr.G(range(side), D=D)
-        qs = [[0, 1], [0, n - 1], [n - 1, 0], [5, 7], [7, 5], [42, 44], [6, 40], [n // 2, n // 2 + 1]]
-        c = {"kind": "deep-chain", "g": g, "L": L, "S": [n - 1], "qs": qs, "dag": False, "oracle": False, "_reclimit": 120}
+        qs = [[0, 1], [0, n - 1], [n - 1, 0], [5, 7], [7, 5], [22, 24], [6, 40], [n // 2, n // 2 + 1]]
+        c = {"kind": "deep-chain", "g": g, "L": L, "S": [n - 1], "qs": qs, "dag": False, "oracle": False, "_reclimit": 30}
         yield c
         B = [(i, i + 1) for i in range(n - 1)]       # long collider chain: every inner node a collider, ancestor of the far end
-        g2 = gr.G(range(n), D=[(i, n - 1) for i in range(1, n - 2, 50)], B=B)
+        g2 = gr.G(range(n), D=[(i, n - 1) for i in range(1, n - 2, 15)], B=B)
         yield {"kind": "deep-bi", "g": g2, "L": [], "S": [], "qs": [[0, 2], [0, n - 1], [1, 3], [n - 3, n - 1]], "dag": False,
-               "oracle": False, "_reclimit": 120}
+               "oracle": False, "_reclimit": 30}
 
 
 def obj_cases(tier, rng):
